@@ -28,8 +28,18 @@ def run(ctx):
     nruns = ctx.pick(2, 10)
     for i in range(nruns):
         t = os.path.join(ctx.scratch, "lrlive%d.ndjson" % i)
-        p = ctx.run_harness(["lr-live", "-out", t, "-ops", str(ctx.pick(33, 120)), "-nodes", "3" if i % 3 != 2 else "1",
-                             "-dir", ctx.sub("lr%d" % i)], timeout=1500, env={"VERIF_SEED": str(ctx.seed * 100 + i)})
+        # a run takes about a minute; one run in ~80 was seen to hang in an operation that is not a read (reads carry a
+        # 1.5 s limit): the goroutine dump is kept by run_harness and the run is repeated once -- a hang is no verdict
+        for attempt in (0, 1):
+            try:
+                p = ctx.run_harness(["lr-live", "-out", t, "-ops", str(ctx.pick(33, 120)), "-nodes", "3" if i % 3 != 2 else "1",
+                                     "-dir", ctx.sub("lr%d_%d" % (i, attempt))], timeout=ctx.pick(420, 900),
+                                    env={"VERIF_SEED": str(ctx.seed * 100 + i)})
+                break
+            except vlib.Undecided as e:
+                if attempt == 1 or "timed out" not in str(e):
+                    raise
+                ctx.cov.setdefault("harness_hangs_retried", []).append(str(e)[-200:])
         stats.append(json.loads(p.stdout.strip().splitlines()[-1]))
         rows_all += vlib.read_nd(t)
     vlib.write_nd(tr, rows_all)
